@@ -1103,3 +1103,14 @@ Proof.
   intro H. simpl. eapply Forall_impl; [|exact H]. intros e [[l (-> & Hne & Hn)] Hk].
   split; [now apply wf_strictify | assumption].
 Qed.
+
+(** no entry point raises on a well-formed operation (the only exception the mirrored code can
+    raise is infer_type's ValueError on an order without classes) *)
+Lemma step_no_raise s ms o : Inv s ms -> wf_op o -> step_raises s o = false.
+Proof.
+  intros I Wf. destruct (step_Inv s ms o I Wf) as [_ H].
+  destruct o; unfold step_raises, raises; unfold step in H; cbv zeta in *;
+    match goal with
+    | |- negb (is_ok (infer_type ?X)) = false => change (infer_type X) with (infer_type (set_type X))
+    end; rewrite H; reflexivity.
+Qed.
